@@ -88,6 +88,12 @@ fn main() {
         "worker" => {
             std::process::exit(props::worker(&args[2..]));
         }
+        "c17-one" => {
+            std::process::exit(props::c17::one(&args[2..]));
+        }
+        "miri-conc" => {
+            std::process::exit(props::c16legs::miri_workload(args.get(2).map(|s| s.as_str()).unwrap_or("c17")));
+        }
         _ => usage(),
     }
 }
